@@ -7,6 +7,9 @@ import TdVerif.Model.SliceSpec
 import TdVerif.Model.Key
 import TdVerif.Model.Compile
 import TdVerif.Model.DualCoverage
+import TdVerif.Lemmas.C18InferSize
+import TdVerif.Lemmas.C18CheckKeys
+import TdVerif.Lemmas.C18ParseTo
 import TdVerif.Gen.DualHelpers
 
 namespace TdVerif.Props.C18
@@ -53,6 +56,112 @@ theorem unravel_key_agree (k : Key) : unravelKeyPy k = unravelKeyCpp k := by
 
 theorem unravel_key_list_agree (l : List Key) : unravelKeyListPy l = unravelKeyListCpp l := by
   simp [unravelKeyListPy, unravelKeyListCpp, unravel_key_agree]
+
+/-! call-level agreement: `unravel_key_list` (both C++ overloads + pybind dispatch) and `unravel_keys` -/
+
+theorem unravel_key_list_loop_agree : ∀ l : List Key, unravelKeyListPyLoop l = unravelKeyListCppList l
+  | [] => rfl
+  | k :: rest => by
+    simp only [unravelKeyListPyLoop, unravelKeyListCppList, unravel_key_agree k, unravel_key_list_loop_agree rest]
+
+/-- `unravel_key_list(keys)` as a call: for a list, a tuple or any other object as `keys`, and any members
+(valid or not), the Python path returns the same list as the native one, or both raise. -/
+theorem unravel_key_list_call_agree (a : KeysArg) : unravelKeyListPyCall a = unravelKeyListCppCall a := by
+  cases a <;> simp [unravelKeyListPyCall, unravelKeyListCppCall, unravelKeyListCppTuple, unravel_key_list_loop_agree]
+
+/-- the two C++ overloads (list / tuple) cannot be told apart -/
+theorem unravel_key_list_overloads_agree (l : List Key) :
+    unravelKeyListCppCall (.tuple l) = unravelKeyListCppCall (.list l) := rfl
+
+/-- the call-level result is the member-wise map exactly when no member is rejected (the first rejected
+member aborts the call) -/
+theorem unravel_key_list_call_eq_map : ∀ l : List Key,
+    unravelKeyListCppList l = if (∀ k ∈ l, unravelKeyCpp k ≠ .err) then some (unravelKeyListCpp l) else none
+  | [] => by simp [unravelKeyListCppList, unravelKeyListCpp]
+  | k :: rest => by
+    have ih := unravel_key_list_call_eq_map rest
+    simp only [unravelKeyListCpp] at ih
+    simp only [unravelKeyListCppList, unravelKeyListCpp, List.map_cons, List.mem_cons, forall_eq_or_imp, ih]
+    cases h : unravelKeyCpp k <;> simp <;> split <;> simp_all
+
+/-- `unravel_keys(*args)`: for any number of positional arguments the Python path does what the native alias
+of `unravel_key` does (exactly one key is accepted). -/
+theorem unravel_keys_agree (args : List Key) : unravelKeysPyCall args = unravelKeysCppCall args := by
+  unfold unravelKeysPyCall unravelKeysCppCall
+  match args with
+  | [] => simp
+  | [k] => simp [unravel_key_agree]
+  | _ :: _ :: _ => simp
+
+/-! what the unravellers compute, against the obvious specification (`leaves` = the strings left to right) -/
+
+mutual
+/-- on a well-formed nested key `_unravel_key_to_tuple` is the list of its strings -/
+theorem unravel_tup_valid : ∀ k : Key, Valid k → unravelTupCpp k = leaves k
+  | .str s, _ => by simp [unravelTupCpp, leaves]
+  | .bad, h => by simp [Valid, validB] at h
+  | .tup l, h => by
+    simp only [Valid, validB] at h
+    simp [unravelTupCpp, unravelTupCppL, leaves, unravel_tupLO_valid l h]
+theorem unravel_tupLO_valid : ∀ l : List Key, ValidL l → unravelTupCppLO l = some (leavesL l)
+  | [], _ => by simp [unravelTupCppLO, leavesL]
+  | .str s :: rest, h => by
+    simp only [ValidL, validLB] at h
+    simp [unravelTupCppLO, leavesL, leaves, unravel_tupLO_valid rest h]
+  | .bad :: rest, h => by simp [ValidL, validLB, validB] at h
+  | .tup l :: rest, h => by
+    simp only [ValidL, validLB, Bool.and_eq_true, Bool.not_eq_true', List.isEmpty_eq_false_iff] at h
+    obtain ⟨⟨h1, h2⟩, h3⟩ := h
+    have e := unravel_tup_valid (.tup l) h1
+    simp only [unravelTupCppLO, leavesL, unravel_tupLO_valid rest h3, e]
+    cases hl : leaves (.tup l) with
+    | nil => exact absurd hl h2
+    | cons a as => simp
+end
+
+theorem unravel_key_loop_valid : ∀ l : List Key, ValidL l → unravelKeyLoopCpp l = leavesL l
+  | [], _ => by simp [unravelKeyLoopCpp, leavesL]
+  | .str s :: rest, h => by
+    simp only [ValidL, validLB] at h
+    simp [unravelKeyLoopCpp, leavesL, leaves, unravel_key_loop_valid rest h]
+  | .bad :: rest, h => by simp [ValidL, validLB, validB] at h
+  | .tup l :: rest, h => by
+    simp only [ValidL, validLB, Bool.and_eq_true] at h
+    simp [unravelKeyLoopCpp, leavesL, unravel_key_loop_valid rest h.2, unravel_tup_valid (.tup l) h.1.1]
+
+/-- `unravel_key` of a well-formed nested key: its strings, a single string being returned bare -/
+theorem unravel_key_valid (l : List Key) (h : Valid (.tup l)) :
+    unravelKeyCpp (.tup l) = packKey (leaves (.tup l)) := by
+  simp only [Valid, validB] at h
+  simp [unravelKeyCpp, leaves, unravel_key_loop_valid l h]
+
+theorem unravel_key_loop_strs : ∀ l : List String, unravelKeyLoopCpp (l.map .str) = l
+  | [] => rfl
+  | s :: rest => by simp [unravelKeyLoopCpp, unravel_key_loop_strs rest]
+
+/-- canonical form: unravelling an unravelled key changes nothing (`unravel_key` is idempotent), on both paths -/
+theorem unravel_key_idempotent (k : Key) (h : unravelKeyCpp k ≠ .err) :
+    unravelKeyCpp (unravelKeyCpp k).toKey = unravelKeyCpp k := by
+  cases k with
+  | str s => simp [unravelKeyCpp, KeyOut.toKey]
+  | bad => simp [unravelKeyCpp] at h
+  | tup l =>
+    clear h
+    simp only [unravelKeyCpp]
+    generalize unravelKeyLoopCpp l = m
+    match m with
+    | [] => simp [packKey, KeyOut.toKey, unravelKeyLoopCpp]
+    | [x] => simp [packKey, KeyOut.toKey]
+    | a :: b :: r =>
+      have := unravel_key_loop_strs (a :: b :: r)
+      simp only [List.map_cons] at this
+      simp [packKey, KeyOut.toKey, this]
+
+example : Valid (.tup [.str "a", .tup [.tup [.str "b"], .str "c"]]) := by simp [Valid, validB, validLB, leaves, leavesL]
+example : unravelKeyListCppCall (.tuple [.str "a", .tup [.str "b", .tup [.str "c"]]]) = some [.s "a", .t ["b", "c"]] := by
+  simp [unravelKeyListCppCall, unravelKeyListCppTuple, unravelKeyListCppList, unravelKeyCpp, unravelKeyLoopCpp, unravelTupCpp,
+    unravelTupCppL, unravelTupCppLO, packKey]
+example : unravelKeysPyCall [.str "a", .str "b"] = none := by simp [unravelKeysPyCall]
 
 -- non-vacuity / regression anchors (the three witnesses of DESIGN §7 rows 9, 10, now agreeing)
 example : Gen.sliceIndices (some 0) (some 0) none 3 = .ok (0, 0, 1) := by rfl
@@ -121,5 +230,353 @@ break an obligation (a first version demanded that every such function be listed
 alarm on harmless repairs that added an `is_compiling()` guard — see DESIGN.md, Corrections). -/
 theorem modelled_duals_present : ∀ f ∈ DualCoverage.modelled, f ∈ Gen.dualHelpers := by
   decide +kernel
+
+end TdVerif.Props.C18
+
+/-! ## `infer_size_impl` (eager) / `_infer_size_impl` (the copy torch.compile does not skip)
+
+Both definitions are regenerated from tensordict/utils.py on every run (Gen/PyFuns.lean). -/
+namespace TdVerif.Props.C18
+open TdVerif.InferSize
+
+/-- (a) the two copies agree on every shape (any length, any integers) and every numel,
+including which exception is raised. -/
+theorem infer_size_copies_agree (shape : List Int) (numel : Int) :
+    Gen.inferSizeImplLocal shape numel = Gen.inferSizeImpl shape numel := by
+  rw [genLocal_eq_infer, gen_eq_infer]
+
+/-- the complete input/output relation: the translated code *is* the decision table `closedForm`
+(AssertionError / ZeroDivisionError / the filled shape). -/
+theorem infer_size_closed_form (shape : List Int) (numel : Int) :
+    Gen.inferSizeImpl shape numel = closedForm shape numel := by
+  rw [gen_eq_infer, infer_eq_closedForm]
+
+/-- what an accepted call looks like: the shape was well-formed and the result is either the shape itself
+(no placeholder, `numel` = its product) or the shape with its placeholder replaced by `numel / others`. -/
+theorem infer_size_ok_cases (shape out : List Int) (numel : Int) (h : Gen.inferSizeImpl shape numel = .ok out) :
+    Wellformed shape ∧
+      ((shape.count (-1) = 0 ∧ numel = others shape ∧ out = shape) ∨
+       (shape.count (-1) ≠ 0 ∧ 0 < others shape ∧ others shape ∣ numel ∧ out = shape.set (slot shape) (numel / others shape))) := by
+  rw [infer_size_closed_form] at h
+  unfold closedForm at h
+  by_cases hw : Wellformed shape
+  · refine ⟨hw, ?_⟩
+    have hP := others_nonneg shape hw.1
+    simp only [hw, not_true, if_false] at h
+    by_cases hc : shape.count (-1) = 0
+    · simp only [hc, if_true] at h
+      by_cases hn : numel = others shape
+      · simp only [hn, if_true, Except.ok.injEq] at h; exact .inl ⟨hc, hn, h.symm⟩
+      · simp [hn] at h
+    · simp only [hc, if_false] at h
+      by_cases hn : numel = others shape
+      · simp only [hn, if_true] at h
+        by_cases h0 : others shape = 0
+        · simp [h0] at h
+        · simp only [h0, if_false, Except.ok.injEq] at h
+          refine .inr ⟨hc, by omega, by rw [hn]; exact Int.dvd_refl _, ?_⟩
+          rw [hn, Int.ediv_self h0]; exact h.symm
+      · simp only [hn, if_false] at h
+        by_cases hd : 0 < others shape ∧ others shape ∣ numel
+        · simp only [hd, and_self, if_true, Except.ok.injEq] at h
+          exact .inr ⟨hc, hd.1, hd.2, h.symm⟩
+        · simp [hd] at h
+  · simp [hw] at h
+
+/-- (b) soundness: an accepted result has the rank of `shape`, keeps every entry that is not the
+placeholder `-1`, multiplies to `numel`, and (for a non-negative `numel`) has no negative entry. -/
+theorem infer_size_sound (shape out : List Int) (numel : Int) (h : Gen.inferSizeImpl shape numel = .ok out) :
+    out.length = shape.length
+      ∧ (∀ i : Nat, shape[i]? ≠ some (-1) → out[i]? = shape[i]?)
+      ∧ out.prod = numel
+      ∧ (0 ≤ numel → ∀ x ∈ out, 0 ≤ x) := by
+  obtain ⟨hw, h | h⟩ := infer_size_ok_cases shape out numel h
+  · obtain ⟨hc, hn, rfl⟩ := h
+    have hnn := (nonneg_iff out).2 ⟨hw.1, hc⟩
+    exact ⟨rfl, fun _ _ => rfl, by rw [hn, others_eq_prod out hnn], fun _ => hnn⟩
+  · obtain ⟨hc, hpos, hdvd, rfl⟩ := h
+    obtain ⟨h1, h2, h3, h4, h5⟩ := set_slot_spec (numel / others shape) shape hw hc
+    refine ⟨by simp, ?_, ?_, ?_⟩
+    · intro i hi
+      have : slot shape ≠ i := by
+        intro he; subst he; exact hi h4
+      simp [List.getElem?_set_ne this]
+    · rw [h1]; exact Int.ediv_mul_cancel hdvd
+    · intro hn; exact h2 (Int.ediv_nonneg hn (by omega))
+
+/-- (c1) acceptance, exactly: no entry below -1, at most one -1, and either `numel` is the product of
+the other entries (and this is not the ambiguous `0 = ? * 0` corner) or there is a -1 and that product is
+positive and divides `numel`. -/
+theorem infer_size_ok_iff (shape : List Int) (numel : Int) :
+    (∃ out, Gen.inferSizeImpl shape numel = .ok out) ↔
+      Wellformed shape ∧
+        ((numel = others shape ∧ ¬ (shape.count (-1) = 1 ∧ others shape = 0))
+          ∨ (shape.count (-1) = 1 ∧ 0 < others shape ∧ others shape ∣ numel)) := by
+  constructor
+  · rintro ⟨out, h⟩
+    obtain ⟨hw, h | h⟩ := infer_size_ok_cases shape out numel h
+    · exact ⟨hw, .inl ⟨h.2.1, by omega⟩⟩
+    · have := hw.2; exact ⟨hw, .inr ⟨by omega, h.2.1, h.2.2.1⟩⟩
+  · rintro ⟨hw, h⟩
+    rw [infer_size_closed_form]; unfold closedForm
+    have := hw.2
+    simp only [hw, not_true, if_false]
+    by_cases hc : shape.count (-1) = 0
+    · rcases h with ⟨hn, _⟩ | ⟨h1, _⟩
+      · simp [hc, hn]
+      · omega
+    · have hc1 : shape.count (-1) = 1 := by omega
+      simp only [hc, if_false]
+      rcases h with ⟨hn, hz⟩ | ⟨_, hp, hd⟩
+      · have h0 : others shape ≠ 0 := fun h0 => hz ⟨hc1, h0⟩
+        simp [hn, h0]
+      · by_cases hn : numel = others shape
+        · have h0 : others shape ≠ 0 := by omega
+          simp [hn, h0]
+        · simp [hn, hp, hd]
+
+/-- (c1') completeness in the usual sense: whenever a filling of the placeholder exists (`out` has the same
+rank, keeps the fixed entries and multiplies to `numel`) and is not the ambiguous
+`? * 0 = 0`, the function returns exactly that filling — so the answer is also unique. -/
+theorem infer_size_complete (shape out : List Int) (numel : Int) (hw : Wellformed shape)
+    (hlen : out.length = shape.length) (hag : ∀ i : Nat, shape[i]? ≠ some (-1) → out[i]? = shape[i]?)
+    (hp : out.prod = numel)
+    (hamb : ¬ (shape.count (-1) = 1 ∧ others shape = 0)) :
+    Gen.inferSizeImpl shape numel = .ok out := by
+  by_cases hc : shape.count (-1) = 0
+  · have hsn := (nonneg_iff shape).2 ⟨hw.1, hc⟩
+    have hno : ∀ i : Nat, shape[i]? ≠ some (-1) := by
+      intro i hi; have := hsn (-1) (List.mem_of_getElem? hi); omega
+    have heq : out = shape := List.ext_getElem? (fun i => hag i (hno i))
+    subst heq
+    rw [infer_size_closed_form]; unfold closedForm
+    simp [hw, hc, ← hp, others_eq_prod out hsn]
+  · have hc1 : shape.count (-1) = 1 := by have := hw.2; omega
+    obtain ⟨h1, _, h3, h4, h5⟩ := set_slot_spec (out[slot shape]'(by
+      have := (set_slot_spec 0 shape hw hc).2.2.1; omega)) shape hw hc
+    have hlt : slot shape < out.length := by omega
+    have heq : out = shape.set (slot shape) (out[slot shape]'hlt) := by
+      apply List.ext_getElem?
+      intro i
+      by_cases hi : i = slot shape
+      · subst hi; simp [List.getElem?_set_self h3, List.getElem?_eq_getElem hlt]
+      · have hne : shape[i]? ≠ some (-1) := fun h => hi (h5 i h)
+        rw [hag i hne, List.getElem?_set_ne (fun h => hi h.symm)]
+    have hnum : numel = out[slot shape]'hlt * others shape := by rw [← hp, ← h1, ← heq]
+    have h0 : others shape ≠ 0 := fun h0 => hamb ⟨hc1, h0⟩
+    have hpos : 0 < others shape := by have := others_nonneg shape hw.1; omega
+    have hdvd : others shape ∣ numel := by rw [hnum]; exact Int.dvd_mul_left _ _
+    obtain ⟨out', h'⟩ := (infer_size_ok_iff shape numel).2 ⟨hw, .inr ⟨hc1, hpos, hdvd⟩⟩
+    obtain ⟨_, hcase | hcase⟩ := infer_size_ok_cases shape out' numel h'
+    · exact absurd hcase.1 hc
+    · rw [h', hcase.2.2.2, hnum, Int.mul_ediv_cancel _ h0, ← heq]
+
+/-- (c2) the `[-1, 0]`-with-`numel = 0` corner, exactly: Python's `0 // 0`. -/
+theorem infer_size_zero_division_iff (shape : List Int) (numel : Int) :
+    Gen.inferSizeImpl shape numel = .error "ZeroDivisionError" ↔
+      Wellformed shape ∧ shape.count (-1) = 1 ∧ others shape = 0 ∧ numel = 0 := by
+  rw [infer_size_closed_form]; unfold closedForm
+  by_cases hw : Wellformed shape
+  · have := hw.2
+    simp only [hw, not_true, if_false, true_and]
+    by_cases hc : shape.count (-1) = 0
+    · simp only [hc, if_true]
+      by_cases hn : numel = others shape <;> simp [hn]
+    · have hc1 : shape.count (-1) = 1 := by omega
+      simp only [hc1, true_and]
+      by_cases hn : numel = others shape
+      · by_cases h0 : others shape = 0
+        · simp [hn, h0]
+        · simp [hn, h0]
+      · simp only [hn, if_false]
+        by_cases hd : 0 < others shape ∧ others shape ∣ numel
+        · simp only [hd, and_self, if_true]
+          constructor
+          · intro h; simp at h
+          · rintro ⟨h0, _⟩; omega
+        · simp only [hd, if_false]
+          constructor
+          · intro h; simp at h
+          · rintro ⟨h0, h1⟩; rw [h0, h1] at hn; exact absurd rfl hn
+  · simp [hw]
+
+/-- (c3) no other exception class exists. -/
+theorem infer_size_error_class (shape : List Int) (numel : Int) (e : String)
+    (h : Gen.inferSizeImpl shape numel = .error e) : e = "AssertionError" ∨ e = "ZeroDivisionError" := by
+  rw [infer_size_closed_form] at h
+  unfold closedForm at h
+  repeat' split at h
+  all_goals (cases h; try simp)
+
+-- non-vacuity anchors for the infer_size theorems
+example : Gen.inferSizeImpl [2, -1, 3] 12 = .ok [2, 2, 3] := by rfl
+example : Gen.inferSizeImpl [-1, 0] 0 = .error "ZeroDivisionError" := by rfl
+example : Gen.inferSizeImpl [-1, -1] 4 = .error "AssertionError" := by rfl
+example : Gen.inferSizeImpl [0, -1] 5 = .error "AssertionError" := by rfl
+example : InferSize.Wellformed [2, -1, 3] ∧ [2, -1, 3].count (-1) = 1 ∧ InferSize.others [2, -1, 3] = 6 := by decide
+
+end TdVerif.Props.C18
+
+/-! ## `_check_keys` (tensordict/utils.py): the key agreement test of torch.cat / torch.stack /
+maybe_dense_stack / pad_sequence, on both branches of its `is_compiling()` test -/
+namespace TdVerif.Props.C18
+open TdVerif.CheckKeys
+
+/-- the compile branch (set comprehensions) and the eager branch (`set(...)`) give the same outcome for
+any number of operands with any key lists (repeats, any order), strict or not: both raise KeyError, or
+both return the first operand's key list (strict), or sets with the same members (not strict). -/
+theorem check_keys_branches_agree (tds : List (List String)) (strict : Bool) :
+    Out.same (checkKeysCompile tds strict) (checkKeysEager tds strict) := by
+  cases tds with
+  | nil => simp [checkKeysCompile, checkKeysEager, Out.same]
+  | cons first rest =>
+    simp only [checkKeysCompile, checkKeysEager]
+    rcases loops_agree strict rest (pySetComp first) (pySet first)
+        (fun x => by rw [mem_pySetComp, mem_pySet]) with ⟨h1, h2⟩ | ⟨r, r', h1, h2, h3⟩
+    · simp [h1, h2, Out.same]
+    · simp only [h1, h2]
+      cases strict <;> simp [Out.same, h3]
+
+/-- strict mode (cat / stack): accepted exactly when every later operand has exactly the key set of the
+first one — a later operand with a missing *or an extra* key is refused; and then the first operand's
+keys are returned in its own order. -/
+theorem check_keys_strict_iff (first : List String) (rest : List (List String)) :
+    (checkKeysEager (first :: rest) true = .keys first ∧ ∀ k ∈ rest, ∀ x, x ∈ k ↔ x ∈ first) ∨
+    (checkKeysEager (first :: rest) true = .keyError ∧ ¬ ∀ k ∈ rest, ∀ x, x ∈ k ↔ x ∈ first) := by
+  simp only [checkKeysEager]
+  rcases loopEager_strict rest (pySet first) with ⟨h1, h2⟩ | ⟨h1, h2⟩
+  · left; refine ⟨by simp [h1], ?_⟩
+    intro k hk x; rw [h2 k hk x, mem_pySet]
+  · right; refine ⟨by simp [h1], ?_⟩
+    intro hh; apply h2
+    intro k hk x; rw [hh k hk x, mem_pySet]
+
+/-- the same for the compile branch (corollary) -/
+theorem check_keys_strict_compile_iff (first : List String) (rest : List (List String)) :
+    (checkKeysCompile (first :: rest) true = .keys first ∧ ∀ k ∈ rest, ∀ x, x ∈ k ↔ x ∈ first) ∨
+    (checkKeysCompile (first :: rest) true = .keyError ∧ ¬ ∀ k ∈ rest, ∀ x, x ∈ k ↔ x ∈ first) := by
+  have ha := check_keys_branches_agree (first :: rest) true
+  rcases check_keys_strict_iff first rest with ⟨h1, h2⟩ | ⟨h1, h2⟩
+  · left; refine ⟨?_, h2⟩
+    rw [h1] at ha
+    cases hc : checkKeysCompile (first :: rest) true <;> simp_all [Out.same]
+  · right; refine ⟨?_, h2⟩
+    rw [h1] at ha
+    cases hc : checkKeysCompile (first :: rest) true <;> simp_all [Out.same]
+
+/-- non-strict mode (stack into `out`, pad_sequence): never raises, returns the keys common to all operands -/
+theorem check_keys_nonstrict_inter (first : List String) (rest : List (List String)) :
+    ∃ r, checkKeysEager (first :: rest) false = .set r ∧ ∀ x, x ∈ r ↔ ∀ k ∈ first :: rest, x ∈ k := by
+  obtain ⟨r, hr, hm⟩ := loopEager_nonstrict rest (pySet first)
+  refine ⟨r, by simp [checkKeysEager, hr], ?_⟩
+  intro x; rw [hm x, mem_pySet]; simp
+
+/-- `TensorDictSequential.forward` / `ProbabilisticTensorDictSequential.forward` with selected out keys: the
+compile branch refreshes exactly the entries the eager branch refreshes — the out keys and every leaf of the
+input (the order of a set is irrelevant to `update(keys_to_update=…)`). -/
+theorem seq_keys_branches_agree (outKeys tdKeys : List String) (x : String) :
+    (x ∈ seqKeysCompile outKeys tdKeys ↔ x ∈ seqKeysEager outKeys tdKeys)
+      ∧ (x ∈ seqKeysEager outKeys tdKeys ↔ x ∈ outKeys ∨ x ∈ tdKeys) := by
+  have h2 : x ∈ seqKeysEager outKeys tdKeys ↔ x ∈ outKeys ∨ x ∈ tdKeys := by
+    simp [seqKeysEager, mem_pySet]
+  refine ⟨?_, h2⟩
+  rw [h2]
+  simp only [seqKeysCompile, pyUnion, List.mem_append, List.mem_filter, mem_pySetComp, Bool.not_eq_true',
+    List.contains_eq_mem, decide_eq_false_iff_not]
+  constructor
+  · rintro (h | ⟨h, _⟩)
+    · exact .inl h
+    · exact .inr h
+  · rintro (h | h)
+    · exact .inl h
+    · by_cases hx : x ∈ outKeys
+      · exact .inl hx
+      · exact .inr ⟨h, by simpa [mem_pySetComp] using hx⟩
+
+example : checkKeysEager [["a", "b"], ["b", "a"]] true = .keys ["a", "b"] := by decide
+example : checkKeysEager [["a", "b"], ["b", "a", "c"]] true = .keyError := by decide
+example : checkKeysCompile [["a", "b"], ["b", "a", "c"]] true = .keyError := by decide
+example : checkKeysCompile [["a", "b", "c"], ["c", "a"]] false = .set ["a", "c"] := by decide
+
+end TdVerif.Props.C18
+
+/-! ## `_maybe_correct_neg_dim` (tensordict/utils.py; regenerated in Gen/PyFuns.lean): the dim normaliser used by
+every dim-taking op on both the eager and the compile path -/
+namespace TdVerif.Props.C18
+
+/-- complete input/output relation: with `n = ndim` (or `len(shape)` when `ndim is None`), a dim is accepted
+exactly when `-n ≤ dim < n`; the result is `dim` itself or `dim + n`; everything else is IndexError. -/
+theorem maybe_correct_neg_dim_spec (dim : Int) (shape : List Int) (ndim : Option Int) :
+    Gen.maybeCorrectNegDim dim shape ndim =
+      (let n : Int := ndim.getD (Int.ofNat shape.length)
+       if -n ≤ dim ∧ dim < n then .ok (if dim < 0 then dim + n else dim) else .error "IndexError") := by
+  unfold Gen.maybeCorrectNegDim
+  cases ndim <;> simp only [Option.getD] <;> (repeat' split) <;> first | rfl | (simp only [Except.ok.injEq]; omega) | omega | (exfalso; omega)
+
+/-- an accepted dim is normalised into range and is congruent to the dim given -/
+theorem maybe_correct_neg_dim_range (dim r : Int) (shape : List Int) (ndim : Option Int)
+    (h : Gen.maybeCorrectNegDim dim shape ndim = .ok r) :
+    let n : Int := ndim.getD (Int.ofNat shape.length)
+    0 ≤ r ∧ r < n ∧ (r = dim ∨ r = dim + n) := by
+  rw [maybe_correct_neg_dim_spec] at h
+  simp only at h
+  split at h
+  · rename_i hr
+    simp only [Except.ok.injEq] at h
+    split at h
+    · subst h; exact ⟨by omega, by omega, .inr rfl⟩
+    · subst h; exact ⟨by omega, by omega, .inl rfl⟩
+  · cases h
+
+example : Gen.maybeCorrectNegDim (-1) [4, 5, 6] none = .ok 2 := by rfl
+example : Gen.maybeCorrectNegDim 3 [4, 5, 6] none = .error "IndexError" := by rfl
+example : Gen.maybeCorrectNegDim (-2) [] (some 2) = .ok 0 := by rfl
+
+end TdVerif.Props.C18
+
+/-! ## `_parse_to` (tensordict/utils.py): the argument parser of `TensorDict.to`, whose compile branch is a
+Python twin of torch's native `_parse_to` -/
+namespace TdVerif.Props.C18
+open TdVerif.ParseTo
+
+/-- the binding loops of the Python twin (`for i in range(len(args))`, `for key in kwargs`, the two checks)
+accept a call for a signature exactly when the call *fits* it in the declarative sense: positional arguments
+take the first names, each keyword is a free name of the signature or `memory_format`, the required names
+are bound, every value has the type its name demands. -/
+theorem parse_to_signature_iff (s : Sig) (c : Call) (r : Res) :
+    trySig s c = some r ↔ ∃ bound, Fits s c bound ∧ r = finish bound := trySig_iff s c r
+
+/-- overload resolution of the twin = the native rule: the first of the three signatures that fits decides,
+and a call that fits none is a TypeError — for every call (any positional values, any keywords). -/
+theorem parse_to_first_fit (c : Call) :
+    (∃ i, ∃ (h : i < sigs.length), ∃ bound, Fits sigs[i] c bound ∧ (∀ j (hj : j < i), ¬ ∃ b, Fits (sigs[j]'(by omega)) c b)
+        ∧ parseToPy c = finish bound)
+    ∨ ((∀ s ∈ sigs, ¬ ∃ b, Fits s c b) ∧ parseToPy c = .typeError) := by
+  unfold parseToPy
+  rcases firstFit c sigs with ⟨i, hi, bound, hf, hlt, hres⟩ | ⟨hall, hres⟩
+  · exact .inl ⟨i, hi, bound, hf, hlt, by rw [hres]⟩
+  · exact .inr ⟨hall, by rw [hres]⟩
+
+/-- `copy=` (positional or keyword, whatever its value) is refused with RuntimeError once the call fits -/
+theorem parse_to_copy_refused (bound : List (String × Val)) (h : (lookup bound "copy").isSome = true) :
+    finish bound = .runtimeError := by
+  simp [finish, h]
+
+/-- the witnesses of the defect repaired in round 2: `to(dtype)` and `to(tensor)` (and a positional
+`non_blocking`, `memory_format=`) are understood by the twin -/
+theorem parse_to_dtype_first (t : Nat) (nb : Bool) :
+    parseToPy ⟨[.dtype t, .pyBool nb], []⟩ = .ok none (some t) nb none := by
+  cases nb <;> rfl
+theorem parse_to_tensor_first (d t : Nat) (m : Nat) :
+    parseToPy ⟨[.tensor d t], [("memory_format", .memfmt m)]⟩ = .ok (some d) (some t) false (some m) := by
+  rfl
+
+example : parseToPy ⟨[.dev 0, .dtype 5, .pyBool true], []⟩ = .ok (some 0) (some 5) true none := by decide
+example : parseToPy ⟨[.dev 0], [("device", .dev 0)]⟩ = .typeError := by decide
+example : parseToPy ⟨[.dev 0], [("copy", .pyBool false)]⟩ = .runtimeError := by decide
+example : parseToPy ⟨[.pyInt 1, .pyBool true], []⟩ = .ok (some cpu) (some tInt64) true none := by decide
+example : ∃ bound, Fits sigs[0] ⟨[.dev 0], [("dtype", .dtype 3)]⟩ bound := by
+  obtain ⟨b, hb, _⟩ := (parse_to_signature_iff sigs[0] ⟨[.dev 0], [("dtype", .dtype 3)]⟩ (.ok (some 0) (some 3) false none)).1 (by decide)
+  exact ⟨b, hb⟩
 
 end TdVerif.Props.C18
